@@ -9,6 +9,7 @@ import (
 	"errors"
 	"fmt"
 	"iter"
+	"log/slog"
 	"os"
 	"sort"
 	"time"
@@ -49,17 +50,20 @@ const (
 )
 
 type World struct {
+	// Logger, when set, is the Logger of every engine AddEngine creates (nil = the engine's
+	// default, which discards).
+	Logger *slog.Logger
 	// ExtReverseSections makes AddExtFile lay the block filter sections out in the reverse of
 	// the row-data order (each block still points at its own section): a reader that walks the
 	// blocks by row-data offset cannot cover two sections with one forward read, so the filter
 	// pass of even a small file is a series of reads.
 	ExtReverseSections bool
-	Case  string
-	Kind  StoreKind
-	Vocab *gen.Vocab
-	Tok   refsem.Tokenizer
-	Specs []gen.EngineSpec
-	Eng   []*bs.BloomSearchEngine
+	Case               string
+	Kind               StoreKind
+	Vocab              *gen.Vocab
+	Tok                refsem.Tokenizer
+	Specs              []gen.EngineSpec
+	Eng                []*bs.BloomSearchEngine
 
 	Mem  *stores.MemDataStore
 	FS   *bs.FileSystemDataStore
@@ -143,7 +147,9 @@ func (m noPrefilterMeta) GetMaybeFilesForQuery(ctx context.Context, _ *bs.QueryP
 }
 
 func (w *World) AddEngine(spec gen.EngineSpec) (int, error) {
-	e, err := bs.NewBloomSearchEngine(spec.Config(), w.metaForEngine(), w.dataForEngine())
+	cfg := spec.Config()
+	cfg.Logger = w.Logger
+	e, err := bs.NewBloomSearchEngine(cfg, w.metaForEngine(), w.dataForEngine())
 	if err != nil {
 		return -1, err
 	}
